@@ -40,6 +40,11 @@ func c13Fixture() *core.Spec {
 		core.MkReg("Leaf_S0_b", godi.Transient, core.WithGroup("g")),
 		core.MkReg("Leaf_S1_a", godi.Transient, core.WithName("k")),
 		core.MkReg("Leaf_S2_a", godi.Scoped),
+		// services that need no disposal, wired through optional parameter-object fields
+		core.MkReg("Leaf_S5_a", godi.Transient),
+		core.MkReg("Leaf_S6_a", godi.Transient),
+		core.MkReg("InOptAfter_S7", godi.Scoped),    // S7(S5, S6 optional)
+		core.MkReg("InOptAfter_S4", godi.Transient), // S4(S5, S6 optional)
 	}}
 }
 
@@ -70,6 +75,8 @@ func overlapScenarios() []overlapScenario {
 		{"get-group", core.Op{Kind: core.OpGetGroup, Type: "S0", Group: "g"}, false},
 		{"get-keyed-transient", core.Op{Kind: core.OpGet, Type: "S1", Key: "k"}, false},
 		{"get-scoped-leaf", core.Op{Kind: core.OpGet, Type: "S2"}, false},
+		{"get-scoped-with-optional-fields", core.Op{Kind: core.OpGet, Type: "S7"}, false},
+		{"get-transient-with-optional-fields", core.Op{Kind: core.OpGet, Type: "S4"}, false},
 		{"create-child-with-initializers", core.Op{Kind: core.OpCreate, CtxKind: 0}, true},
 		{"create-child-own-ctx", core.Op{Kind: core.OpCreate, CtxKind: 2}, true},
 	}
@@ -89,6 +96,9 @@ func overlapScenarios() []overlapScenario {
 func c13Setup(sc overlapScenario) (*core.Run, int, int) {
 	s := c13Spec(sc.withInit)
 	m := core.NewModel(s)
+	if m.Class != core.ClsOK {
+		panic("harness fixture c13Spec is not buildable: " + m.Class.String())
+	}
 	r := core.NewRun(s, m, nil, nil)
 	r.Build()
 	if !r.Built {
@@ -205,6 +215,28 @@ func runC13(c *eng.Ctx) {
 			}
 		}
 	}
+}
+
+// halfInitialised lists the services constructed by operation opIdx that received no instance in
+// a slot bound to exactly one registered service.
+func halfInitialised(r *core.Run, opIdx int, feat string) []core.Finding {
+	var fs []core.Finding
+	o := core.Digest(r)
+	for _, run := range o.Runs {
+		if run.Op != opIdx || run.Reg < 0 || run.ExitSeq == 0 {
+			continue
+		}
+		binds := r.Model.Regs[run.Reg].Binds
+		for k, a := range run.Args {
+			if k >= len(binds) || binds[k].Kind != core.BindSingle {
+				continue
+			}
+			if a.Kind != 'i' {
+				fs = append(fs, core.Finding{Clause: "half-initialised-result", Sig: feat + ":" + binds[k].Dep.Form.String(), Detail: fmt.Sprintf("%s: the operation returned a normal result, but %s was constructed during it without its dependency %s (slot %d, %s), which is registered", feat, r.Model.Describe(run.Reg), binds[k].Dep.Target, k, binds[k].Dep.Form)})
+			}
+		}
+	}
+	return fs
 }
 
 func init() { core.C11CreateVsClose = runC11CreateVsClose }
@@ -414,6 +446,12 @@ func overlapAtFor(c *eng.Ctx, prop string, idx int, sc overlapScenario, _, _ int
 		fs = append(fs, core.Finding{Clause: "overlap-panic", Sig: feat + ":closer", Detail: fmt.Sprintf("%s, pause point %d: the closing call panicked: %v", feat, j, clRes.Panic)})
 	} else if clRes.Class != "ok" && clRes.Class != "disposal" {
 		fs = append(fs, core.Finding{Clause: "closer-unexpected-error", Sig: feat + ":" + clRes.Class, Detail: fmt.Sprintf("%s, pause point %d: the closing call returned %s (%v)", feat, j, clRes.Class, core.TrimErr(clRes.Err))})
+	}
+	// a resolution that came back with a normal result built its services completely: every
+	// dependency slot that is bound to a registered service received an instance (a disposed
+	// error met on the way must fail the resolution, not be taken for "optional and absent")
+	if !r.Poisoned && op.Kind != core.OpCreate && opRes.Class == "ok" {
+		fs = append(fs, halfInitialised(r, opRes.Op, feat)...)
 	}
 	// a scope that was returned normally by a CreateScope overlapping the Close of its parent
 	// (or of an ancestor / the provider) is a descendant of a closed scope once both calls have
